@@ -8,6 +8,45 @@ fn main() {
         std::process::exit(2);
     }
     let id = args[1].clone();
+    if id == "lab" {
+        // debug: run the request of a lab replay file and print the raw reply
+        let v: serde_json::Value = serde_json::from_str(&std::fs::read_to_string(&args[2]).unwrap()).unwrap();
+        let text = v["replay"]["grammar"].as_str().unwrap();
+        let g = vcore::lw::import(text).expect("import");
+        let req = vcore::labrun::req_from_json(&g, &v["replay"]["request"]).unwrap();
+        let mut b = vcore::lab::build_batch(&[(g.clone(), vcore::gm::print(&g).text)], &Default::default());
+        println!("{:?}", b.states[0]);
+        let rep = b.run(&req);
+        println!("status {:?}\ntree {}\ndiags {:?}\nflat {:?}", rep.status, rep.tree.as_ref().map(|t| t.dump()).unwrap_or_default(), rep.diags, rep.flat);
+        for e in &rep.log {
+            println!("  {e:?}");
+        }
+        return;
+    }
+    if id == "gen" {
+        // debug: print generated grammars of a profile with lelwel's verdict
+        let profs = vcore::checks::c01::all_profiles();
+        let prof = profs.iter().find(|p| p.name == args[2]).cloned().unwrap_or_else(|| vcore::ggen::Profile::full());
+        let n: usize = args[3].parse().unwrap();
+        let mut runner = vcore::dice::runner(ev::seed_from_env(), 1);
+        let trees = vcore::dice::draw_trees(&mut runner, 500, n);
+        let mut stats = std::collections::BTreeMap::new();
+        for t in trees {
+            use proptest::strategy::ValueTree;
+            let g = vcore::ggen::build(&prof, &t.current());
+            let text = vcore::gm::print(&g).text;
+            let (d, _) = vcore::lw::diagnostics(&text);
+            let errs: Vec<String> = d.iter().filter(|x| x.error).map(|x| format!("{}@{:?}", x.code.clone().unwrap_or_default(), x.primary())).collect();
+            let key = errs.first().map(|e| e[..4.min(e.len())].to_string()).unwrap_or("ok".into());
+            *stats.entry(key.clone()).or_insert(0) += 1;
+            let unprod = !vcore::refan::productive_rules(&g).iter().all(|b| *b);
+            if args.len() > 4 && (args[4] == "all" || key.starts_with(&args[4]) || (args[4] == "unprod" && unprod)) {
+                println!("---- {errs:?} unprod={unprod}\n{text}");
+            }
+        }
+        println!("{stats:?}");
+        return;
+    }
     if id == "dump" {
         let text = std::fs::read_to_string(&args[2]).unwrap();
         let g = vcore::lw::import(&text).expect("import failed");
@@ -34,6 +73,13 @@ fn main() {
     let threads = std::env::var("VERIF_THREADS").ok().and_then(|s| s.parse().ok()).unwrap_or(16);
     let ctx = Ctx { tier, seed: ev::seed_from_env(), replay, threads };
     vcore::lw::quiet_panics();
-    let code = checks::run(&id, &ctx);
-    std::process::exit(code);
+    let res = std::panic::catch_unwind(|| checks::run(&id, &ctx));
+    match res {
+        Ok(code) => std::process::exit(code),
+        Err(_) => {
+            let msg = vcore::lw::LAST_PANIC_GLOBAL.lock().ok().and_then(|g| g.clone()).unwrap_or_default();
+            eprintln!("inconclusive: harness error: {msg}");
+            std::process::exit(2);
+        }
+    }
 }
